@@ -28,9 +28,9 @@ import (
 //	peer / NetDial events  ≡ 0     context deadline ≡ 3
 //	dial timeout           ≡ 5     timed cancel     ≡ 7
 type scenario struct {
-	Ctx       string     `json:"ctx"`                   // background | todo | cancel | value | custom | deadline
+	Ctx       string     `json:"ctx"` // background | todo | cancel | value | custom | deadline
 	Deadline  int        `json:"ctx_deadline_ms,omitempty"`
-	Timeout   int        `json:"timeout_ms,omitempty"`  // Dialer.Timeout, 0 = none
+	Timeout   int        `json:"timeout_ms,omitempty"` // Dialer.Timeout, 0 = none
 	DialDelay int        `json:"netdial_delay_ms,omitempty"`
 	DialFail  bool       `json:"netdial_fails,omitempty"` // NetDial reports "connection refused" after its delay
 	RBuf      int        `json:"rbuf,omitempty"`
@@ -97,7 +97,7 @@ type outcome struct {
 	AtReturn       connState
 	Log            []event // log after the quiet hour
 	LeakedLate     bool
-	Leaked         int     // goroutines of the bubble other than the harness's, after Dial returned and everything settled
+	Leaked         int // goroutines of the bubble other than the harness's, after Dial returned and everything settled
 	LeakDump       string
 	Deadlock       string // synctest's verdict when the bubble could not drain / Dial never returned
 	Panic          string
